@@ -287,21 +287,62 @@ class OkImplies:
                 rv = ds[0][2]["rv"]
                 dty = rv["ty"]
                 okv = self._ok_disc(dty)
-                if okv is not None:
-                    listed = [v for v, _ in t["v"]]
-                    if vals:
-                        v = vals[0]
-                    else:
-                        rest = [x for x in (0, 1) if x not in listed]
-                        v = rest[0] if len(rest) == 1 else None
-                    if v == okv:
-                        vf = self.value_facts(body, {"c": rv["p"]} if not rv["p"]["p"] else None, rv["p"])
-                        return vf if vf is not TOP else TOP
-                    return frozenset()
-        # integer switch on a compared value: record equality with the constant
-        if vals and l is not None:
-            return frozenset([("cmp", "Eq", "const:%s" % vals[0], self.desc(body, o))]) if False else frozenset()
+                listed = [v for v, _ in t["v"]]
+                if vals:
+                    v = vals[0]
+                else:
+                    allv = self._all_discs(dty)
+                    rest = [x for x in (allv if allv is not None else (0, 1)) if x not in listed]
+                    v = rest[0] if len(rest) == 1 else None
+                out = frozenset()
+                vn = self._variant_name(dty, v)
+                if vn is not None:
+                    out = frozenset([("is", vn, self.desc_place(body, rv["p"]))])
+                if okv is not None and v == okv:
+                    vf = self.value_facts(body, {"c": rv["p"]} if not rv["p"]["p"] else None, rv["p"])
+                    if vf is TOP:
+                        return TOP
+                    return out | vf
+                return out
+        # integer switch: equality / inequality with the listed constant
+        if l is not None or op_place(o) is not None:
+            d = self.desc(body, o)
+            if vals:
+                return frozenset([("cmp", "Eq", "const:%s" % vals[0], d)])
+            listed = [v for v, _ in t["v"]]
+            if len(listed) == 1:
+                return frozenset([("cmp", "Ne", "const:%s" % listed[0], d)])
         return frozenset()
+
+    def _all_discs(self, ty):
+        t = ty.lstrip("&").strip()
+        if t.startswith("mut "):
+            t = t[4:]
+        bp = base_path(t)
+        if bp in ("std::result::Result", "std::option::Option", "std::ops::ControlFlow"):
+            return (0, 1)
+        ad = self.F.adts.get(bp)
+        if ad is not None:
+            return tuple(int(v["disc"]) for v in ad["variants"])
+        return None
+
+    def _variant_name(self, ty, v):
+        if v is None:
+            return None
+        t = ty.lstrip("&").strip()
+        if t.startswith("mut "):
+            t = t[4:]
+        bp = base_path(t)
+        std = {"std::result::Result": {0: "Ok", 1: "Err"}, "std::option::Option": {0: "None", 1: "Some"}, "std::ops::ControlFlow": {0: "Continue", 1: "Break"},
+               "std::cmp::Ordering": {-1: "Less", 0: "Equal", 1: "Greater"}}
+        if bp in std:
+            return std[bp].get(v)
+        ad = self.F.adts.get(bp)
+        if ad is not None:
+            for var in ad["variants"]:
+                if int(var["disc"]) == v:
+                    return var["name"]
+        return None
 
     @staticmethod
     def _ok_disc(ty):
